@@ -592,6 +592,34 @@ end
 
 /-! ### typing of values by carriers -/
 
+/-- `x` is the embedding of a `CqlValue` (see `RVal`): leaves, `Empty`, sequences / maps of such, tuples and
+UDTs whose fields are `none` or `some` of such. -/
+def dynImage : RVal → Bool
+  | .scalar _ _ => true
+  | .meEmpty => true
+  | .vec vs => dynList vs
+  | .map kvs => dynPairs kvs
+  | .tuple fs => dynOpts fs
+  | .udt _ _ fs => dynFields fs
+  | _ => false
+where
+  dynList : List RVal → Bool
+    | [] => true
+    | v :: vs => dynImage v && dynList vs
+  dynPairs : List (RVal × RVal) → Bool
+    | [] => true
+    | (k, v) :: r => dynImage k && dynImage v && dynPairs r
+  dynOpts : List RVal → Bool
+    | [] => true
+    | .none :: r => dynOpts r
+    | .some v :: r => dynImage v && dynOpts r
+    | _ :: _ => false
+  dynFields : List (String × RVal) → Bool
+    | [] => true
+    | (_, .none) :: r => dynFields r
+    | (_, .some v) :: r => dynImage v && dynFields r
+    | _ :: _ => false
+
 mutual
 /-- `x` is a value of Rust type `c` (for `dyn`: the embedding of some `CqlValue`). -/
 def hasType : Carrier → RVal → Bool
@@ -631,6 +659,7 @@ def hasType : Carrier → RVal → Bool
   | .tuple cs, x => match x with
     | .tuple fs => hasTypes cs fs
     | _ => false
+  | .dyn, x => dynImage x
   | _, _ => false
 def hasTypes : List Carrier → List RVal → Bool
   | [], [] => true
